@@ -1,3 +1,4 @@
 import Lcapy.Driver.Loop
 import Lcapy.Driver.C20
-def main : IO Unit := Lcapy.Driver.runDriver [Lcapy.Driver.C20.handle]
+import Lcapy.Driver.C20Placer
+def main : IO Unit := Lcapy.Driver.runDriver [Lcapy.Driver.C20.handle, Lcapy.Driver.C20Placer.handle]
